@@ -492,7 +492,9 @@ def groupselectmin(table, key, value, presorted=False, buffersize=None,
     `value` field within each group. N.B., will only return one row for each
     group, even if multiple rows have the same (minimum) value."""
 
-    return groupselectfirst(sort(table, value, reverse=False), key,
+    return groupselectfirst(sort(table, value, reverse=False,
+                                 buffersize=buffersize, tempdir=tempdir,
+                                 cache=cache), key,
                             presorted=presorted, buffersize=buffersize,
                             tempdir=tempdir, cache=cache)
 
@@ -506,7 +508,9 @@ def groupselectmax(table, key, value, presorted=False, buffersize=None,
     `value` field within each group. N.B., will only return one row for each
     group, even if multiple rows have the same (maximum) value."""
 
-    return groupselectfirst(sort(table, value, reverse=True), key,
+    return groupselectfirst(sort(table, value, reverse=True,
+                                 buffersize=buffersize, tempdir=tempdir,
+                                 cache=cache), key,
                             presorted=presorted, buffersize=buffersize,
                             tempdir=tempdir, cache=cache)
 
